@@ -14,3 +14,7 @@ CONSTANTS
   ForwardCountedOnce = FALSE
   SourceKeyFromMapping = TRUE
   WithFail = FALSE
+  MaxFlight = 0
+  OfferAtomic = TRUE
+  WithDropped = FALSE
+  DroppedChecksQuota = TRUE
